@@ -268,6 +268,34 @@ pub fn run(rep: &mut Rep) {
             m.crash("recover_id_secret(arg1)", &format!("alias-{}", names[fi]), &v_recover(&c, &m2, &msg2), json!({}));
         }
     }
+    // recovery on pairs that agree in some fields: every single field of message 1 replaced by the field of
+    // message 2 / altered by one, both orders (e.g. equal x with different y must be an error, not a crash)
+    {
+        let names5 = ["root", "external_nullifier", "x", "y", "nullifier"];
+        for (fi, fname) in names5.iter().enumerate() {
+            for variant in ["+1", "from-other", "zero"] {
+                let mut a = msg.clone();
+                let (lo, hi) = (128 + 32 * fi, 128 + 32 * fi + 32);
+                match variant {
+                    "+1" => {
+                        let v = dec_message(&msg).unwrap().1;
+                        let f = [v.root, v.ext, v.x, v.y, v.nullifier][fi] + Fr::from(1u64);
+                        a[lo..hi].copy_from_slice(&enc_fr(&f));
+                    }
+                    "from-other" => a[lo..hi].copy_from_slice(&msg2[lo..hi]),
+                    _ => a[lo..hi].copy_from_slice(&[0u8; 32]),
+                }
+                for (x, y, order) in [(&msg, &a, "orig,altered"), (&a, &msg, "altered,orig"), (&a, &a, "altered,altered"), (&a, &msg2, "altered,other")] {
+                    m.crash("recover_id_secret(pair)", &format!("{fname}{variant}|{order}"), &v_recover(&c, x, y), json!({"field": fname, "variant": variant, "order": order}));
+                }
+            }
+        }
+        // message 2 with message 1's x (equal x, different y and nullifier fields as they are)
+        let mut b2 = msg2.clone();
+        b2[128 + 64..128 + 96].copy_from_slice(&msg[128 + 64..128 + 96]);
+        m.crash("recover_id_secret(pair)", "equal-x-different-y", &v_recover(&c, &msg, &b2), json!({}));
+        m.crash("recover_id_secret(pair)", "equal-x-different-y|swapped", &v_recover(&c, &b2, &msg), json!({}));
+    }
     // the instance still works
     if v_rln(&c, &req) != V::True || v_rln(&c, &req2) != V::True {
         m.rep.violation("verify_rln_proof:valid-message-rejected-after-hostile-inputs", json!({}));
